@@ -64,7 +64,7 @@ Require Import Lia.
 Require Import Calc.Base Calc.Bytecode Calc.Value Calc.FloatText Calc.Ast Calc.Resolve Calc.Compile
         Calc.VM Calc.Sem Calc.Session Calc.CorrSession Calc.SemSession Calc.SemProofs
         Calc.ExprSem Calc.ExprVM Calc.ExprCorrect Calc.ExprTop Calc.ExprAssign Calc.ExprLen Calc.ExprSession
-        Calc.LExprSem Calc.StmtSem Calc.StmtRel Calc.StmtVM Calc.StmtCorrect Calc.StmtTop Calc.StmtCheck.
+        Calc.LExprSem Calc.StmtSem Calc.StmtRel Calc.StmtVM Calc.StmtCorrect Calc.StmtTop Calc.StmtCheck Calc.StmtDef.
 Open Scope Z_scope.
 
 (* ---- the full statement (open) ---- *)
@@ -601,6 +601,90 @@ Proof.
     destruct (String.eqb nm "mad"); [injection H as <-; reflexivity|].
     destruct (String.eqb nm "k"); [injection H as <-; reflexivity|discriminate H].
   - split; vm_compute; reflexivity.
+Qed.
+
+(* ---- definitions themselves:  f = (p1, .., pk) -> body  with a pure-expression body, compiled and run at top
+   level (the jump over the body, FUNC, the assignment), enters f into the function table: the machine it
+   leaves meets the premise of the statement theorems under the table with one more entry ---- *)
+Theorem C01_definition_compiled_and_run : forall f ps body lc s s' v c m fuel,
+  lpure (repeat VNil (List.length ps)) body = true -> lc = Z.of_nat (List.length ps) ->
+  wfcs s -> idle v s c m -> m_fp m = [] -> ncs s + 1 < 4294967296 ->
+  ByteCode (NAssign (NName f) (NFunction ps body lc)) s = CompOk s' ->
+  (4 < fuel)%nat ->
+  wfcs s' /\
+  exists v' c' m',
+    let fv := VFun (pack_function (ncs s + 1) lc lc) (v_next v) in
+    Run fuel (load_code v s') true = (v', RValue fv) /\
+    idle v' s' c' m' /\ c_mid c' = c_mid c /\ c_children c' = c_children c /\
+    m_sp m' = m_sp m /\ msame (m_sp m) m m' /\
+    v_globals v' = sassoc_set (v_globals v) f fv /\
+    v_frames v' = (v_next v, FNone) :: v_frames v /\ v_next v' = v_next v + 1 /\
+    v_out v' = v_out v /\ v_in v' = v_in v /\
+    v_cs v' = rev (rcs s') /\ v_ds v' = rev (rds s') /\
+    (exists code, lay s s' code) /\
+    is_ufun lc v' body fv.
+Proof. exact bytecode_run_def. Qed.
+Print Assumptions C01_definition_compiled_and_run.
+
+Theorem C01_definition_extends_the_table : forall B t f ps body lc mc c m,
+  bready B mc c m -> m_fp m = [] -> ncs (mc_cs mc) + 1 < 4294967296 ->
+  strewrite t = Some (NAssign (NName f) (NFunction ps body lc)) ->
+  CompileWf.wfb (NAssign (NName f) (NFunction ps body lc)) = true ->
+  lpure (repeat VNil (List.length ps)) body = true -> lc = Z.of_nat (List.length ps) ->
+  bop_of_name f = None -> f <> "read"%string ->
+  snd (run_tree false mc t) = TRefused \/
+  exists c' m',
+    let fv := VFun (pack_function (ncs (mc_cs mc) + 1) lc lc) (v_next (mc_vm mc)) in
+    let mc' := fst (run_tree false mc t) in
+    snd (run_tree false mc t) = TValue fv /\
+    wof (mc_vm mc') = wbump (wglob (wof (mc_vm mc)) (sassoc_set (v_globals (mc_vm mc)) f fv)) /\
+    bready (ft_add B f fv body lc) mc' c' m' /\ m_fp m' = [].
+Proof. exact def_step. Qed.
+Print Assumptions C01_definition_extends_the_table.
+
+(* the same step in the reference semantics: the closure is entered under a fresh id *)
+Theorem C01_sem_definition : forall B n f ps body lc env st,
+  sem_bf B st -> assoc_get (s_clos st) (s_next st) = None ->
+  bop_of_name f = None -> f <> "read"%string -> e_frame env = None ->
+  let fv := VFun 0 (s_next st) in
+  exists st', eval (S (S n)) (NAssign (NName f) (NFunction ps body lc)) env st = Done st' (CVal fv) /\
+    wof_s st' = wbump (wglob (wof_s st) (sassoc_set (s_globals st) f fv)) /\
+    sem_bf (ft_add B f fv body (zlen ps)) st'.
+Proof. exact eval_def. Qed.
+Print Assumptions C01_sem_definition.
+
+(* every history of definitions and statements, in any order: each statement's compiled run agrees with
+   its meaning under the table built by the definitions before it *)
+Theorem C01_sessions_with_definitions_partial : forall items B mc c m,
+  tready B mc c m -> Forall item_ok items -> mixed B mc items.
+Proof. exact mixed_session. Qed.
+Print Assumptions C01_sessions_with_definitions_partial.
+
+(* the demonstration again, now from the machine that holds only the built-ins: the definitions are trees of
+   the session, and no premise about the user functions is left to a computation *)
+Definition demo_items : list item :=
+  [IStmt def_lim;
+   IDef {| fd_tree := def_sq; fd_name := "sq"; fd_params := [NLocal 0 "x"]; fd_body := sq_body |};
+   IDef {| fd_tree := def_big; fd_name := "big"; fd_params := [NLocal 0 "v"]; fd_body := big_body |};
+   IDef {| fd_tree := def_mad; fd_name := "mad"; fd_params := [NLocal 0 "a"; NLocal 1 "b"; NLocal 2 "c"]; fd_body := mad_body |};
+   IDef {| fd_tree := def_k; fd_name := "k"; fd_params := []; fd_body := k_body |}] ++ map IStmt demo_ucalls.
+
+Example C01_builtin_machine_is_at_top_level : exists c m, tready vm_bf mc_after_first c m.
+Proof.
+  destruct C01_builtin_premises_hold as [c [m H]]. exists c, m. split; [exact H|].
+  destruct H as [[[_ [Hc _ Hm _]] _] _].
+  vm_compute in Hc. injection Hc as <-. vm_compute in Hm. injection Hm as <-. reflexivity.
+Qed.
+
+Example C01_demo_with_definitions_is_covered :
+  Forall item_ok demo_items /\ mixed vm_bf mc_after_first demo_items /\
+  map item_tree demo_items = [def_lim; def_sq; def_big; def_mad; def_k] ++ demo_ucalls.
+Proof.
+  assert (H : Forall item_ok demo_items).
+  { unfold demo_items, demo_ucalls. repeat constructor; try discriminate. }
+  split; [exact H|]. split; [|reflexivity].
+  destruct C01_builtin_machine_is_at_top_level as [c [m Hr]].
+  exact (mixed_session demo_items vm_bf mc_after_first c m Hr H).
 Qed.
 
 (* ---- proved: the oracle follows the language rules ---- *)
